@@ -173,6 +173,41 @@ def replay(ctx, module, kd, stride=None, boundary=None):
     return 0
 
 
+def sample_lines(trace, head=1200, block=1500):
+    """A small sample of a (possibly huge) trace for the binding self-test: its first lines (fixtures, model
+    vectors / builder programs of shard 0) and a contiguous block starting at the first mutated input.  A parse
+    event that announces a round trip is never separated from it."""
+    out, mut = [], []
+    with open(trace) as f:
+        for line in f:
+            line = line.rstrip("\n")
+            if len(out) < head:
+                out.append(line)
+            elif mut or ('"src":"mut"' in line and '"op":"parse"' in line):
+                mut.append(line)
+                if len(mut) >= block:
+                    break
+    for part in (out, mut):
+        while part and '"op":"parse"' in part[-1] and '"more":true' in part[-1]:
+            part.pop()
+    while mut and '"op":"rt"' in mut[0]:
+        mut.pop(0)
+    return out + mut
+
+
+def first_matching(trace, preds, limit=400000):
+    """first line satisfying each predicate (streaming; the thorough traces are gigabytes)"""
+    found = [None] * len(preds)
+    with open(trace) as f:
+        for n, line in enumerate(f):
+            for i, p in enumerate(preds):
+                if found[i] is None and p(line):
+                    found[i] = json.loads(line)
+            if all(x is not None for x in found) or n > limit:
+                break
+    return found
+
+
 def selftest_lines(ctx, module, cfg, lines, mutate, name):
     """Corrupt a copy of `lines` with mutate(lines) -> (new_lines, expected_line); the monitor must flag that line."""
     base_p = ctx.path(f"selftest_{name}_0.ndjson")
